@@ -1,0 +1,81 @@
+//go:build verif
+
+// Machine-checked contracts for package persistedretry (comment-only; read by /verif/govc).
+// Property C30 (safety half): a task leaves the persistent store only after an execution of it
+// succeeded; an accepted task is stored and is either queued for a worker or marked failed (the
+// state the retry poll picks up); after a restart no task is left pending.
+//
+// The persistent state of a task is the ghost map store.st (absent / 1 pending / 2 failed) and
+// executor.done is the set of tasks that have been executed successfully: both are defined by the
+// assumed contracts of the Store and Executor interfaces (contracts/externs/persistedretry.spec).
+// sent(ch) counts the sends on a channel.
+
+package persistedretry
+
+//@ specfunc mgr(m *manager) bool = m != nil && m.store != nil && m.executor != nil
+
+// exec: the one place a task is removed from the store.
+//@ func manager.exec
+//@   requires mgr(m)
+//@   requires stored: t in m.store.st
+//@   modifies map m.store.st, map m.executor.done
+//@   assert remove_only_after_success: at Store.Remove#0 :: (t in m.executor.done)
+//@   ensures succeeded_or_failed: result == nil ==> (!(t in m.store.st) && (t in m.executor.done)) || ((t in m.store.st) && m.store.st[t] == 2)
+//@   ensures never_lost: (t in m.executor.done) || ((t in m.store.st) <==> old(t in m.store.st))
+//@   ensures others: forall u Task :: u != t ==> ((u in m.store.st) <==> old(u in m.store.st)) && m.store.st[u] == old(m.store.st[u])
+
+// enqueue: the task is handed to a worker queue, or, when the queue is full, marked failed.
+//@ func manager.enqueue
+//@   requires mgr(m) && tasks != nil
+//@   requires stored: t in m.store.st
+//@   modifies map m.store.st, sent(tasks)
+//@   ensures queued_or_failed: result == nil ==> (sent(tasks) == old(sent(tasks)) + 1 && m.store.st[t] == old(m.store.st[t])) || (sent(tasks) == old(sent(tasks)) && m.store.st[t] == 2)
+//@   ensures error_changes_nothing: result != nil ==> sent(tasks) == old(sent(tasks)) && m.store.st[t] == old(m.store.st[t])
+//@   ensures stays_stored: old(t in m.store.st) ==> (t in m.store.st)
+//@   ensures others: forall u Task :: u != t ==> ((u in m.store.st) <==> old(u in m.store.st)) && m.store.st[u] == old(m.store.st[u])
+
+// Add: a new task is stored and is pending-and-queued or failed; a task that is already stored is
+// left exactly as it is.
+//@ func manager.Add
+//@   requires mgr(m) && t != nil && m.incoming != nil
+//@   modifies map m.store.st, sent(m.incoming)
+//@   ensures accepted: result == nil && !old(t in m.store.st) ==> (t in m.store.st) && (m.store.st[t] == 2 || (m.store.st[t] == 1 && sent(m.incoming) == old(sent(m.incoming)) + 1))
+//@   ensures duplicate_ignored: old(t in m.store.st) ==> (t in m.store.st) && m.store.st[t] == old(m.store.st[t]) && sent(m.incoming) == old(sent(m.incoming))
+//@   ensures others: forall u Task :: u != t ==> ((u in m.store.st) <==> old(u in m.store.st)) && m.store.st[u] == old(m.store.st[u])
+
+// retry: a failed task goes back to pending only together with a queue slot (or stays failed).
+//@ func manager.retry
+//@   requires mgr(m) && m.retries != nil
+//@   requires stored: t in m.store.st
+//@   modifies map m.store.st, sent(m.retries)
+//@   ensures requeued_or_failed: result == nil ==> (t in m.store.st) && ((m.store.st[t] == 1 && sent(m.retries) == old(sent(m.retries)) + 1) || m.store.st[t] == 2)
+//@   ensures stays_stored: old(t in m.store.st) ==> (t in m.store.st)
+//@   ensures others: forall u Task :: u != t ==> ((u in m.store.st) <==> old(u in m.store.st)) && m.store.st[u] == old(m.store.st[u])
+
+// After a restart nothing is pending: tasks that were queued in the previous process are failed and
+// will be polled again.
+//@ func manager.markPendingTasksAsFailed
+//@   requires mgr(m)
+//@   modifies map m.store.st
+//@   ensures none_pending: result == nil ==> (forall u Task :: (u in m.store.st) ==> m.store.st[u] != 1)
+//@   ensures nothing_dropped: forall u Task :: (u in m.store.st) <==> old(u in m.store.st)
+//@   loop 0 invariant idx: 0 - 1 <= rangeindex && rangeindex < len(tasks)
+//@   loop 0 invariant kept: forall u Task :: (u in m.store.st) <==> old(u in m.store.st)
+//@   loop 0 invariant done: forall i int :: 0 <= i && i <= rangeindex ==> m.store.st[tasks[i]] == 2
+//@   loop 0 invariant rest: forall u Task :: (u in m.store.st) && m.store.st[u] == 1 ==> (exists i int :: rangeindex < i && i < len(tasks) && tasks[i] == u)
+
+// The retry poll re-queues only tasks the store reports as failed.
+//@ func manager.pollRetries
+//@   requires mgr(m) && m.retries != nil
+//@   modifies map m.store.st, sent(m.retries)
+//@   assert only_failed_tasks: at manager.retry#0 :: (t in m.store.st)
+//@   ensures nothing_dropped: forall u Task :: old(u in m.store.st) ==> (u in m.store.st)
+//@   loop 0 invariant idx: 0 - 1 <= rangeindex && rangeindex < len(tasks)
+//@   loop 0 invariant kept: forall u Task :: old(u in m.store.st) ==> (u in m.store.st)
+
+// NewManager: workers start only after every task left pending by a previous process was marked
+// failed (so that the retry poll will pick it up again).
+//@ func NewManager
+//@   requires store != nil && executor != nil
+//@   modifies *
+//@   assert recovered_before_workers: at manager.start#0 :: forall u Task :: (u in store.st) ==> store.st[u] != 1
